@@ -30,6 +30,7 @@ from chameleon.utils import detect_encoding
 from chameleon.utils import join
 from chameleon.utils import mangle
 from chameleon.utils import raise_with_traceback
+from chameleon._verif import point as _verif_point
 from chameleon.utils import read_bytes
 from chameleon.utils import read_xml_encoding
 from chameleon.utils import value_repr
@@ -208,7 +209,9 @@ class BaseTemplate:
         builtins_dict.update(self.extra_builtins)
         names, builtins = zip(*sorted(builtins_dict.items()))
         digest = self.digest(body, names)
+        _verif_point("cook.begin", template=self)
         program = self._cook(body, digest, names)
+        _verif_point("cook.compiled", template=self)
 
         init = program[PROGRAM_NAME]
         functions = init(*builtins)
@@ -221,7 +224,9 @@ class BaseTemplate:
         for name, function in functions.items():
             setattr(self, "_" + name, function)
 
+        _verif_point("cook.published", template=self)
         self._cooked = True
+        _verif_point("cook.flagged", template=self)
 
         if self.keep_body:
             self.body = body
@@ -402,15 +407,20 @@ class BaseTemplateFile(BaseTemplate):
             self.cook_check()
 
     def cook_check(self) -> bool:
+        _verif_point("check.begin", template=self)
         if self.auto_reload:
             mtime = self.mtime()
+            _verif_point("check.mtime", template=self, mtime=mtime)
 
             if mtime != self._v_last_read:
                 self._v_last_read = mtime
+                _verif_point("check.last_read_set", template=self)
                 self._cooked = False
+                _verif_point("check.uncooked", template=self)
 
         if self._cooked is False:
             body = self.read()
+            _verif_point("check.read", template=self)
             log.debug("cooking %r (%d bytes)..." % (self.filename, len(body)))
             self.cook(body)
             return True
